@@ -58,10 +58,12 @@ def r1_literal_to_string(text):
     return ''.join(out), n
 
 
-def apply(text, rules, what, log):
+def apply(text, rules, what, log, lenient=False):
     if 'R1S' in rules:
         text, n = r1s_format_concat(text)
-        if n == 0:
+        if n == 0 and lenient:
+            log.setdefault('degraded', {}).setdefault(what, []).append('rule R1S matched nothing')
+        elif n == 0:
             raise ExtractError('rule R1S enabled for %s but it matched nothing (anchor lost)' % what)
         log['rewrites'].append({'rule': 'R1S', 'item': what, 'count': n})
         rules = [r for r in rules if r != 'R1S']
@@ -95,6 +97,9 @@ def apply(text, rules, what, log):
     for r in rules:
         if r == 'R9':
             text, n = r9_float_args(text, log)
+            if n == 0 and lenient:
+                log.setdefault('degraded', {}).setdefault(what, []).append('rule R9 matched nothing')
+                continue
             if n == 0:
                 raise ExtractError('rule R9 enabled for %s but it matched nothing (anchor lost)' % what)
             log['rewrites'].append({'rule': 'R9', 'item': what, 'count': n})
@@ -104,9 +109,18 @@ def apply(text, rules, what, log):
         fn = RULES.get(r)
         if fn is None:
             raise ExtractError('unknown rewrite rule %s for %s' % (r, what))
-        text, n = fn(text)
+        try:
+            text, n = fn(text)
+        except ExtractError as e:
+            if not lenient:
+                raise
+            log.setdefault('degraded', {}).setdefault(what, []).append('rule %s not applicable: %s' % (r, str(e)[:80]))
+            continue
         if n == 0 and optional:
             # `Rn?`: the construct the rule rewrites is gone from this function; go on and let the verifier judge the new body
+            continue
+        if n == 0 and lenient:
+            log.setdefault('degraded', {}).setdefault(what, []).append('rule %s matched nothing' % r)
             continue
         if n == 0:
             raise ExtractError('rule %s enabled for %s but it matched nothing (anchor lost)' % (r, what))
